@@ -71,16 +71,18 @@ Proof.
   rewrite C. cbn -[pad_text]. reflexivity.
 Qed.
 
-(* integer node *)
+(* integer node: ints are compared exactly *)
+Lemma py_eq_refl : forall v, py_eq v v = true.
+Proof. intros v. unfold py_eq. apply d_eqb_refl. Qed.
+
 Lemma unchanged_int : forall s pad np n,
-  py_int_of_string s = Ok n -> to_dbl (VInt n) <> None ->
+  py_int_of_string s = Ok n ->
   render KInt (TText s) pad np (VInt n)
   = Ok (s ++ pad_text (match pad with Some l => l | None => [] end)).
 Proof.
-  intros s pad np n H T. unfold render, make_node. rewrite H. cbn [bind].
-  unfold format, value_changed, set_value. cbn -[isclose pad_text to_dbl].
-  destruct (to_dbl (VInt n)) as [a|] eqn:E; [|congruence].
-  rewrite isclose_refl. cbn -[pad_text]. reflexivity.
+  intros s pad np n H. unfold render, make_node. rewrite H. cbn [bind].
+  unfold format, value_changed, set_value. cbn -[py_eq pad_text].
+  rewrite py_eq_refl. cbn -[pad_text]. reflexivity.
 Qed.
 
 (* ------------------------------------------------------------------------------------------ *)
@@ -145,8 +147,6 @@ Qed.
 (* ------------------------------------------------------------------------------------------ *)
 (* 3. reading back what was written: the first blank-delimited word, as an exact decimal *)
 
-Fixpoint lstrip_ws (s : string) : string :=
-  match s with String a r => if is_ws a then lstrip_ws r else s | EmptyString => "" end.
 Fixpoint take_word (s : string) : string :=
   match s with String a r => if is_ws a then "" else String a (take_word r) | EmptyString => "" end.
 Definition first_word (s : string) : string := take_word (lstrip_ws s).
@@ -167,69 +167,6 @@ Lemma Qclose_b_false : forall r x, Qclose_b r x = false -> ~ Qclose r x.
 Proof.
   intros r x H [C|C]; apply Qle_bool_iff in C; unfold Qclose_b in H; rewrite C in H;
     [discriminate | rewrite orb_true_r in H; discriminate].
-Qed.
-
-(* the doubles used as witnesses *)
-Definition d_1_23456 : dbl := mkD false 694995494495815 (-49).          (* 1.23456 *)
-Definition d_5_123456789 : dbl := mkD false 5768499521447309 (-50).     (* 5.123456789 *)
-Definition d_57_999 : dbl := mkD false 8162774324609023 (-47).          (* 57.99999999999999 *)
-Definition d_1_23456789 : dbl := mkD false 5559999489367579 (-52).      (* 1.23456789 *)
-Definition d_2_5 : dbl := mkD false 5 (-1).                             (* 2.5 *)
-
-Lemma refuted_precision_cap :
-  exists tok pad x s r,
-    render KFloat (TText tok) pad false (VFlt x) = Ok s /\
-    written_number s = Some r /\ ~ Qclose (decval r) (dval x).
-Proof.
-  exists "1.5", (Some [PStr " "]), d_1_23456, "1.2 ", (false, 12, -1).
-  split; [vm_compute; reflexivity|]. split; [vm_compute; reflexivity|].
-  apply Qclose_b_false. vm_compute. reflexivity.
-Qed.
-
-Lemma refuted_intlike_six_digits :
-  exists tok pad x s r,
-    render KFloat (TText tok) pad false (VFlt x) = Ok s /\
-    written_number s = Some r /\ ~ Qclose (decval r) (dval x).
-Proof.
-  exists "5", (Some [PStr " "]), d_5_123456789, "5.12346 ", (false, 512346, -5).
-  split; [vm_compute; reflexivity|]. split; [vm_compute; reflexivity|].
-  apply Qclose_b_false. vm_compute. reflexivity.
-Qed.
-
-Lemma refuted_int_truncation :
-  exists tok pad x s r,
-    render KFloat (TText tok) pad false (VFlt x) = Ok s /\
-    written_number s = Some r /\ ~ Qclose (decval r) (dval x).
-Proof.
-  exists "5", (Some [PStr " "]), d_57_999, "57 ", (false, 57, 0).
-  split; [vm_compute; reflexivity|]. split; [vm_compute; reflexivity|].
-  apply Qclose_b_false. vm_compute. reflexivity.
-Qed.
-
-Lemma refuted_scratch_five_digits :
-  exists x s r,
-    render KFloat TNone None false (VFlt x) = Ok s /\
-    written_number s = Some r /\ ~ Qclose (decval r) (dval x).
-Proof.
-  exists d_1_23456789, "1.2346 ", (false, 12346, -4).
-  split; [vm_compute; reflexivity|]. split; [vm_compute; reflexivity|].
-  apply Qclose_b_false. vm_compute. reflexivity.
-Qed.
-
-(* format() raises for a finite value *)
-Lemma refuted_total :
-  exists tok pad x, render KFloat (TText tok) pad false (VFlt x) = Err EAttribute.
-Proof. exists "-1.5e0", (Some [PStr " "]), d_2_5. vm_compute. reflexivity. Qed.
-
-(* an integer that is not written exactly *)
-Lemma refuted_int_exact :
-  exists tok pad n s r,
-    render KInt (TText tok) pad false (VInt n) = Ok s /\
-    written_number s = Some r /\ ~ (decval r == inject_Z n)%Q.
-Proof.
-  exists "1000000000", (Some [PStr " "]), 1000000001, "1000000000 ", (false, 1000000000, 0).
-  split; [vm_compute; reflexivity|]. split; [vm_compute; reflexivity|].
-  vm_compute. discriminate.
 Qed.
 
 (* ------------------------------------------------------------------------------------------ *)
@@ -1033,6 +970,27 @@ Proof.
   apply Z.leb_le in E. apply Z.mul_pos_pos; [exact H | apply Z.pow_pos_nonneg; lia].
 Qed.
 
+Lemma d_num_nonneg : forall x, 0 <= dman x -> 0 <= d_num x.
+Proof.
+  intros x H. unfold d_num. destruct (0 <=? dexp x) eqn:E; [|exact H].
+  apply Z.leb_le in E. apply Z.mul_nonneg_nonneg; [exact H | apply Z.pow_nonneg; lia].
+Qed.
+
+Lemma rhe_nonneg : forall a b, 0 <= a -> 0 < b -> 0 <= rhe a b.
+Proof.
+  intros a b Ha Hb. unfold rhe. pose proof (Z.div_pos a b Ha Hb).
+  destruct (2 * (a mod b) ?= b); [destruct (Z.even (a / b))| |]; lia.
+Qed.
+
+Lemma scale_round_nonneg : forall n d k, 0 <= n -> 0 < d -> 0 <= scale_round n d k.
+Proof.
+  intros n d k Hn Hd. unfold scale_round. destruct (0 <=? k) eqn:E.
+  - apply Z.leb_le in E. apply rhe_nonneg; [|exact Hd].
+    apply Z.mul_nonneg_nonneg; [exact Hn | apply Z.pow_nonneg; lia].
+  - apply Z.leb_gt in E. apply rhe_nonneg; [exact Hn|].
+    apply Z.mul_pos_pos; [exact Hd | apply Z.pow_pos_nonneg; lia].
+Qed.
+
 Lemma dabs_nonneg : forall x, 0 <= dman x -> (0 <= dabs x)%Q.
 Proof.
   intros x H. unfold dabs. apply Qmult_le_0_compat.
@@ -1063,49 +1021,87 @@ Proof.
   rewrite slen_app, slen_zeros. lia.
 Qed.
 
-(* the scientific branch: the text is  sign zeros d0.d1..dp divider sign exponent  and reads as
-   (sign, D, E - p) for the digits (D, E) of the digit generation *)
-Lemma sci_branch_read : forall nd f x temp,
-  n_isfloat nd = true -> is_scientific f = true -> 0 <= precision f ->
+(* drop_blank of the text  sign ++ rest  when rest starts with a digit *)
+Lemma drop_blank_digit : forall c rest, is_digit c = true -> drop_blank (String c rest) = String c rest.
+Proof.
+  intros c rest H. unfold drop_blank. destruct c as [[] [] [] [] [] [] [] []]; try reflexivity. discriminate.
+Qed.
+
+(* the sign the reader sees after the possible blank of sign option " " *)
+Definition read_sign (sopt : ascii) (neg : bool) : option ascii :=
+  if neg then Some "-"%char else if Ascii.eqb sopt "+"%char then Some "+"%char else None.
+
+Lemma drop_blank_signed : forall sopt neg body c rest,
+  body = String c rest -> is_digit c = true ->
+  drop_blank (sign_text sopt neg ++ body) = sign_str (read_sign sopt neg) ++ body /\
+  match read_sign sopt neg with Some a => is_sign a = true | None => True end /\
+  (match read_sign sopt neg with Some a => Ascii.eqb a "-" | None => false end) = neg.
+Proof.
+  intros sopt neg body c rest -> Hc. unfold sign_text, read_sign. destruct neg.
+  - cbn. auto.
+  - destruct (Ascii.eqb sopt "+").
+    + cbn. auto.
+    + destruct (Ascii.eqb sopt " ").
+      * cbn [append drop_blank sign_str]. auto.
+      * cbn [append sign_str]. rewrite drop_blank_digit by exact Hc. auto.
+Qed.
+
+Lemma zeros_digit_head : forall z body c rest,
+  body = String c rest -> is_digit c = true ->
+  exists c' rest', zeros z ++ body = String c' rest' /\ is_digit c' = true.
+Proof.
+  intros z body c rest -> Hc. unfold zeros. destruct (Z.to_nat z) as [|k]; cbn.
+  - eauto.
+  - eexists; eexists; split; [reflexivity | reflexivity].
+Qed.
+
+Lemma mantissa_head : forall p D, 0 <= p ->
+  exists c rest, mantissa_text p D = String c rest /\ is_digit c = true.
+Proof.
+  intros p D Hp. destruct (mantissa_text_shape p D Hp) as (a & r & Edf & _ & ->).
+  pose proof (all_digits_fixed (Z.to_nat (p + 1)) D) as AD. rewrite Edf in AD. cbn in AD.
+  apply andb_true_iff in AD. destruct AD as [Aa _].
+  cbn [append]. eauto.
+Qed.
+
+(* the scientific branch of _format_float: the text is  sign zeros d0.d1..dp divider sign exponent  and
+   reads as (sign, D, E - p) for the digits (D, E) of the digit generation *)
+Lemma sci_branch_read : forall f x p temp,
+  is_scientific f = true -> 0 <= p ->
   exponent_length f = exponent_zero_pad f ->
   (divider f = "" \/ divider f = "e" \/ divider f = "E") ->
-  can_float_to_int nd f (VFlt x) = Ok false ->
   0 <= dman x ->
-  render_temp nd true f (VFlt x) = Ok temp ->
-  exists D E, read_number temp = Some (dneg x, D, E - precision f) /\
+  format_float true f x p = Ok temp ->
+  exists D E, read_number (drop_blank temp) = Some (dneg x, D, E - p) /\
     (dman x = 0 /\ D = 0 \/
-     0 < dman x /\ sci_digits (precision f) (d_num x) (d_den x) = Some (D, E)).
+     0 < dman x /\ sci_digits p (d_num x) (d_den x) = Some (D, E)).
 Proof.
-  intros nd f x temp Hf Hs Hp Hel Hdiv Hc Hm H.
-  unfold render_temp in H. rewrite Hc in H. cbn [bind] in H. rewrite Hf in H.
-  cbn [negb orb to_dbl] in H. rewrite Hs in H.
-  set (p := precision f) in *.
+  intros f x p temp Hs Hp Hel Hdiv Hm H.
+  unfold format_float in H. cbn [negb] in H. rewrite Hs in H.
   assert (Hl : exists letter, divider f = sign_str letter /\
                (letter = None \/ letter = Some "e"%char \/ letter = Some "E"%char)).
   { destruct Hdiv as [->|[->| ->]]; [exists None | exists (Some "e"%char) | exists (Some "E"%char)]; auto. }
   destruct Hl as (letter & Dl & Hl). rewrite Dl in H.
-  rewrite sign_text_opt in H.
   assert (G : forall D E, 0 <= D < 10 ^ (p + 1) ->
-     (if starts_with " " (sign_str (sign_opt (f_sign f) (dneg x))) then Err EAttribute
-      else Ok (sign_str (sign_opt (f_sign f) (dneg x)) ++
-               zeros (zero_padding f - slen (sign_str (sign_opt (f_sign f) (dneg x))) -
+     Ok (sign_text (f_sign f) (dneg x) ++
+               zeros (zero_padding f - slen (sign_text (f_sign f) (dneg x)) -
                       slen (mantissa_text p D ++ "e" ++ exp_sign E ++ exp_digits E)) ++
                mantissa_text p D ++ sign_str letter ++ exp_sign E ++
-               ljust (zfill "" (show_nat_Z (Z.abs E)) (exponent_zero_pad f)) (exponent_length f)))
+               ljust (zfill "" (show_nat_Z (Z.abs E)) (exponent_zero_pad f)) (exponent_length f))
      = Ok temp ->
-     read_number temp = Some (dneg x, D, E - p)).
-  { intros D E HD HH. rewrite Hel, zfill_exp_text in HH.
-    unfold sign_opt in HH.
-    destruct (dneg x) eqn:Ng.
-    - cbn [sign_str starts_with Ascii.eqb Bool.eqb] in HH. inversion HH; subst temp.
-      apply (read_sci_text (Some "-"%char)); auto.
-    - destruct (Ascii.eqb (f_sign f) "+").
-      + cbn [sign_str starts_with] in HH. inversion HH; subst temp.
-        apply (read_sci_text (Some "+"%char)); auto.
-      + destruct (Ascii.eqb (f_sign f) " ").
-        * cbn in HH. discriminate.
-        * cbn [sign_str starts_with] in HH. inversion HH; subst temp.
-          apply (read_sci_text None); auto. }
+     read_number (drop_blank temp) = Some (dneg x, D, E - p)).
+  { intros D E HD HH. rewrite Hel, zfill_exp_text in HH. inversion HH; subst temp; clear HH.
+    destruct (mantissa_head p D Hp) as (c & rest & Em & Hc).
+    set (z := zero_padding f - _ - _).
+    set (tail := sign_str letter ++ exp_sign E ++ exp_text (exponent_zero_pad f) E).
+    assert (Eb : exists c' rest', zeros z ++ mantissa_text p D ++ tail = String c' rest' /\ is_digit c' = true).
+    { rewrite Em. change (String c rest ++ tail) with (String c (rest ++ tail)).
+      eapply zeros_digit_head; [reflexivity | exact Hc]. }
+    destruct Eb as (c' & rest' & Eb & Hc').
+    destruct (drop_blank_signed (f_sign f) (dneg x) _ c' rest' Eb Hc') as (Ed & Hsg & Hneg).
+    rewrite Ed. unfold tail.
+    rewrite (read_sci_text (read_sign (f_sign f) (dneg x)) z p D E letter (exponent_zero_pad f) Hsg Hp HD Hl).
+    rewrite Hneg. reflexivity. }
   unfold e_parts in H. destruct (dman x =? 0) eqn:Z0.
   - apply Z.eqb_eq in Z0. cbn [bind] in H. exists 0, 0. split.
     + apply G; [|exact H]. split; [lia | apply pow10_pos; lia].
@@ -1114,30 +1110,29 @@ Proof.
     destruct (sci_digits p (d_num x) (d_den x)) as [[D E]|] eqn:SD; [|discriminate].
     cbn [bind] in H. exists D, E.
     destruct (d_frac x) as [Fx Dp].
-    destruct (sci_digits_spec (d_num x) (d_den x) (d_num_pos x ltac:(lia)) Dp (dabs x) Fx p D E Hp SD)
+    destruct (sci_digits_spec (d_num x) (d_den x) Dp (dabs x) Fx p D E Hp SD)
       as [[D1 D2] _].
     split.
     + apply G; [|exact H]. pose proof (pow10_pos p Hp). lia.
-    + right. split; [lia | exact SD].
+    + right. split; [lia | first [exact SD | reflexivity]].
 Qed.
 
 (* ... and its error: at most half a unit of the last digit, relative to the value *)
-Lemma sci_branch_error : forall nd f x temp,
-  n_isfloat nd = true -> is_scientific f = true -> 0 <= precision f ->
+Lemma sci_branch_error : forall f x p temp,
+  is_scientific f = true -> 0 <= p ->
   exponent_length f = exponent_zero_pad f ->
   (divider f = "" \/ divider f = "e" \/ divider f = "E") ->
-  can_float_to_int nd f (VFlt x) = Ok false ->
   0 <= dman x ->
-  render_temp nd true f (VFlt x) = Ok temp ->
-  exists r, read_number temp = Some r /\
-    (Qabs (decval r - dval x) <= (1 # 2) * p10 (- precision f) * Qabs (dval x))%Q.
+  format_float true f x p = Ok temp ->
+  exists r, read_number (drop_blank temp) = Some r /\
+    (Qabs (decval r - dval x) <= (1 # 2) * p10 (- p) * Qabs (dval x))%Q.
 Proof.
-  intros nd f x temp Hf Hs Hp Hel Hdiv Hc Hm H.
-  destruct (sci_branch_read nd f x temp Hf Hs Hp Hel Hdiv Hc Hm H) as (D & E & R & C).
-  exists (dneg x, D, E - precision f). split; [exact R|].
+  intros f x p temp Hs Hp Hel Hdiv Hm H.
+  destruct (sci_branch_read f x p temp Hs Hp Hel Hdiv Hm H) as (D & E & R & C).
+  exists (dneg x, D, E - p). split; [exact R|].
   unfold decval. rewrite dval_dabs.
-  assert (Eq : (sgnQ (dneg x) * inject_Z D * (10 # 1) ^ (E - precision f) - sgnQ (dneg x) * dabs x
-                == sgnQ (dneg x) * (inject_Z D * p10 (E - precision f) - dabs x))%Q)
+  assert (Eq : (sgnQ (dneg x) * inject_Z D * (10 # 1) ^ (E - p) - sgnQ (dneg x) * dabs x
+                == sgnQ (dneg x) * (inject_Z D * p10 (E - p) - dabs x))%Q)
     by (unfold p10; ring).
   rewrite Eq, !sgnQ_abs.
   pose proof (dabs_nonneg x Hm) as NN. rewrite (Qabs_pos (dabs x) NN).
@@ -1145,59 +1140,39 @@ Proof.
   - assert (A0 : (dabs x == 0)%Q) by (unfold dabs; rewrite Z0; ring).
     rewrite A0. rewrite Qmult_0_l, Qmult_0_r. cbn. unfold Qle; cbn; lia.
   - destruct (d_frac x) as [Fx Dp].
-    destruct (sci_digits_spec (d_num x) (d_den x) (d_num_pos x Pm) Dp (dabs x) Fx _ D E Hp SD) as [_ B].
+    destruct (sci_digits_spec (d_num x) (d_den x) Dp (dabs x) Fx _ D E Hp SD) as [_ B].
     apply Qabs_Qle_condition. exact B.
 Qed.
 
 (* the fixed branch *)
-Lemma fixed_branch_error : forall nd f x temp,
-  n_isfloat nd = true -> is_scientific f = false -> as_int f = false -> 0 <= precision f ->
+Lemma fixed_branch_error : forall f x p temp,
+  is_scientific f = false -> as_int f = false -> 0 <= p ->
   0 <= dman x ->
-  render_temp nd true f (VFlt x) = Ok temp ->
+  format_float true f x p = Ok temp ->
   exists r, read_number (drop_blank temp) = Some r /\
-    (Qabs (decval r - dval x) <= (1 # 2) * p10 (- precision f))%Q.
+    (Qabs (decval r - dval x) <= (1 # 2) * p10 (- p))%Q.
 Proof.
-  intros nd f x temp Hf Hs Ha Hp Hm H.
-  unfold render_temp, can_float_to_int in H. rewrite Hf, Ha in H. cbn [andb negb bind orb to_dbl] in H.
-  rewrite Hs, Ha in H. inversion H; subst temp; clear H.
-  set (p := precision f) in *. unfold f_body.
+  intros f x p temp Hs Ha Hp Hm H.
+  unfold format_float in H. cbn [negb] in H. rewrite Hs, Ha in H. inversion H; subst temp; clear H.
+  unfold f_body.
   set (D := scale_round (d_num x) (d_den x) p).
   destruct (d_frac x) as [Fx Dp].
   assert (HD : 0 <= D).
-  { (* D >= x*10^p - 1/2 > -1 *)
-    destruct (Z.eq_dec (dman x) 0) as [Z0|NZ].
-    - unfold D, scale_round, d_num. rewrite Z0. unfold rhe.
-      destruct (0 <=? dexp x); destruct (0 <=? p); cbn; rewrite ?Z.mul_0_l; cbn;
-        try (rewrite Z.div_0_l, Z.mod_0_l); cbn; try lia.
-      all: try (intro C; pose proof (pow10_pos (- p)); pose proof (Z.pow_pos_nonneg 2 (- dexp x)); nia).
-    - pose proof (scale_round_spec (d_num x) (d_den x) Dp (dabs x) Fx p) as [L _]. fold D in L.
-      pose proof (dabs_nonneg x Hm) as NN. pose proof (p10_pos p) as PP.
-      assert (Q0 : (- (1 # 2) <= inject_Z D)%Q) by nra.
-      unfold Qle in Q0. cbn in Q0. lia. }
+  { unfold D. apply scale_round_nonneg; [apply d_num_nonneg; exact Hm | exact Dp]. }
   exists (dneg x, D, - p). split.
-  - unfold zfill. rewrite sign_text_opt. unfold sign_opt.
-    destruct (dneg x).
-    + cbn [sign_str append drop_blank]. apply (read_fixed_text (Some "-"%char)); auto.
-    + destruct (Ascii.eqb (f_sign f) "+").
-      * cbn [sign_str append drop_blank]. apply (read_fixed_text (Some "+"%char)); auto.
-      * destruct (Ascii.eqb (f_sign f) " ").
-        -- cbn [sign_str append drop_blank]. apply (read_fixed_text None); auto.
-        -- cbn [sign_str append].
-           set (body := if p =? 0 then _ else _).
-           assert (Hb : exists c rest, zeros (zero_padding f - slen "" - slen body) ++ body = String c rest
-                                       /\ is_digit c = true).
-           { assert (Hbd : exists c rest, body = String c rest /\ is_digit c = true).
-             { pose proof (show_nonempty (D / 10 ^ p)) as Ne. pose proof (all_digits_show (D / 10 ^ p)) as Ad.
-               unfold body. destruct (show_nat_Z (D / 10 ^ p)) as [|c rest]; [congruence|].
-               cbn in Ad. apply andb_true_iff in Ad.
-               destruct (p =? 0); eexists; eexists; (split; [reflexivity | apply Ad]). }
-             destruct Hbd as (c & rest & -> & Hc).
-             unfold zeros. destruct (Z.to_nat _) as [|k]; cbn; eexists; eexists; (split; [reflexivity|]);
-               [exact Hc | reflexivity]. }
-           destruct Hb as (c & rest & Eb & Hc). rewrite Eb.
-           assert (Db : drop_blank (String c rest) = String c rest).
-           { unfold drop_blank. destruct c as [[] [] [] [] [] [] [] []]; try reflexivity. discriminate. }
-           rewrite Db, <- Eb. apply (read_fixed_text None); auto.
+  - unfold zfill.
+    set (body := if p =? 0 then _ else _).
+    assert (Hbd : exists c rest, body = String c rest /\ is_digit c = true).
+    { pose proof (show_nonempty (D / 10 ^ p)) as Ne. pose proof (all_digits_show (D / 10 ^ p)) as Ad.
+      unfold body. destruct (show_nat_Z (D / 10 ^ p)) as [|c rest]; [congruence|].
+      cbn in Ad. apply andb_true_iff in Ad.
+      destruct (p =? 0); eexists; eexists; (split; [reflexivity | apply Ad]). }
+    destruct Hbd as (c & rest & Eb & Hc).
+    destruct (zeros_digit_head (zero_padding f - slen (sign_text (f_sign f) (dneg x)) - slen body) body c rest Eb Hc)
+      as (c' & rest' & Ez & Hc').
+    destruct (drop_blank_signed (f_sign f) (dneg x) _ c' rest' Ez Hc') as (Ed & Hsg & Hneg).
+    rewrite Ed. unfold body.
+    rewrite (read_fixed_text (read_sign (f_sign f) (dneg x)) _ p D Hsg Hp HD). rewrite Hneg. reflexivity.
   - unfold decval. rewrite dval_dabs.
     assert (Eq : (sgnQ (dneg x) * inject_Z D * (10 # 1) ^ (- p) - sgnQ (dneg x) * dabs x
                   == sgnQ (dneg x) * (inject_Z D * p10 (- p) - dabs x))%Q) by (unfold p10; ring).
